@@ -16,8 +16,10 @@ peg::parser! {
         rule _() = quiet!{ [' ' | '\t' | '\n' | '\r']* }
 
         // Case-insensitive keyword matcher
+        // A keyword ends where an identifier would end: `for0`, `by_x` or `in-2` are identifiers that
+        // merely start with the letters of a keyword.
         rule ci(s: &'static str)
-            = kw:$(['a'..='z' | 'A'..='Z']+) {? if eq_ci(kw, s) { Ok(()) } else { Err("expected keyword") } }
+            = kw:$(['a'..='z' | 'A'..='Z']+) !['0'..='9' | '_' | '-'] {? if eq_ci(kw, s) { Ok(()) } else { Err("expected keyword") } }
 
         // ==========
         // ENTRY POINT
